@@ -149,7 +149,7 @@ func expNode(n *gen.SNode, key string) (string, error) {
 		for i := range names {
 			names[i] = strings.TrimSpace(names[i])
 		}
-		val = strings.Join(names, " | ")
+		val = strings.TrimSpace(n.Lit) // the reference text as written
 		if len(names) == 1 {
 			gen0 = append(gen0, "type=reference:"+names[0])
 		} else {
